@@ -164,6 +164,14 @@ def _adjacent_prefixed_strings(text, problem):
 KNOWN_CLASSES["adjacent_prefixed_strings"] = _adjacent_prefixed_strings
 
 
+def _pragma_before_switch_body(text, problem):
+    """pragma line(s) between the `)` of a switch head and the `{` of its body"""
+    return "switch" in text and re.search(r"\)\s*(?:#pragma[^\n]*\n\s*|_Pragma\s*\([^)]*\)\s*)+\{", text) is not None
+
+
+KNOWN_CLASSES["pragma_before_switch_body"] = _pragma_before_switch_body
+
+
 def known_class(name):
     def deco(fn):
         KNOWN_CLASSES[name] = fn
